@@ -34,38 +34,42 @@ import (
 // exercised (quick tier; the thorough tier multiplies the case count by
 // 15 and the floors by 10).
 var floors = map[string]int{
-	"replay-40-OPEN":              20,
-	"replay-40-OPEN_CONFIRM":      8,
-	"replay-40-CLOSE":             10,
-	"replay-40-LOCK_NEW":          8,
-	"replay-40-LOCK":              5,
-	"replay-40-LOCKU":             5,
-	"replay-40-OPEN_DOWNGRADE":    3,
-	"replay-after-unrelated-40":   20,
-	"misordered-40+2":             15,
-	"misordered-40-1":             15,
-	"diff-optype-40":              20,
-	"diff-stateid-40":             10,
-	"inflight-dup-40":             20,
-	"replay-40-CLOSE_OLD_STATEID": 3,
-	"resend-unconsumed-seqid-40":  5,
+	"replay-40-OPEN":                       20,
+	"replay-40-OPEN_CONFIRM":               8,
+	"replay-40-CLOSE":                      10,
+	"replay-40-LOCK_NEW":                   8,
+	"replay-40-LOCK":                       5,
+	"replay-40-LOCKU":                      5,
+	"replay-40-OPEN_DOWNGRADE":             3,
+	"replay-after-unrelated-40":            20,
+	"misordered-40+2":                      15,
+	"misordered-40-1":                      15,
+	"diff-optype-40":                       20,
+	"diff-stateid-40":                      10,
+	"inflight-dup-40":                      20,
+	"inflight-two-or-more-waiters-40":      20,
+	"inflight-next-request-behind-open-40": 20,
+	"replay-40-CLOSE_OLD_STATEID":          3,
+	"resend-unconsumed-seqid-40":           5,
 
-	"replay-41-OPEN":              10,
-	"replay-41-CLOSE":             5,
-	"replay-41-LOCK_NEW":          5,
-	"replay-41-LOCKU":             3,
-	"replay-41-cached":            30,
-	"replay-41-uncached":          10,
-	"replay-after-unrelated-41":   20,
-	"replay-create-session":       20,
-	"misordered-create-session":   30,
-	"misordered-41+2":             15,
-	"misordered-41-1":             15,
-	"false-retry-41-fewer-ops":    10,
-	"false-retry-41-more-ops":     5,
-	"false-retry-41-other-optype": 10,
-	"inflight-dup-41":             20,
-	"inflight-dup-41-uncached":    5,
+	"replay-41-OPEN":                            10,
+	"replay-41-CLOSE":                           5,
+	"replay-41-LOCK_NEW":                        5,
+	"replay-41-LOCKU":                           3,
+	"replay-41-cached":                          30,
+	"replay-41-uncached":                        10,
+	"replay-after-unrelated-41":                 20,
+	"replay-create-session":                     20,
+	"misordered-create-session":                 30,
+	"misordered-41+2":                           15,
+	"misordered-41-1":                           15,
+	"false-retry-41-fewer-ops":                  10,
+	"false-retry-41-more-ops":                   5,
+	"false-retry-41-other-optype":               10,
+	"false-retry-41-same-shape-other-arguments": 10,
+	"inflight-dup-41":                           20,
+	"inflight-two-or-more-waiters-41":           20,
+	"inflight-dup-41-uncached":                  5,
 
 	// Coverage-gap pass: refusals at an in-order seqid, error replies that
 	// are cached, seqid wrap-around, unconfirmed owners (4.0); session and
@@ -81,33 +85,34 @@ var floors = map[string]int{
 	"refused-in-order-stale-clientid-40":                  8,
 	"refused-in-order-lock-owner-already-on-file-40":      3,
 	"refused-in-order-lock-seqid-replayed-in-new-lock-40": 1,
-	"seqid-wrap-40":                               15,
-	"replay-at-seqid-wrap-40":                     15,
-	"misordered-unconfirmed-owner-40":             20,
-	"replay-40-OPEN_ERR":                          10,
-	"replay-40-OPEN_PREVIOUS":                     4,
-	"replay-40-OPEN_DOWNGRADE_ERR":                5,
-	"slot-table-bad-session-41":                   6,
-	"slot-table-bad-slot-41":                      6,
-	"slot-table-too-many-ops-41":                  6,
-	"slot-table-no-sequence-41":                   6,
-	"slot-table-create-session-not-only-op-41":    6,
-	"slot-table-destroy-session-not-only-op-41":   6,
-	"slot-table-exchange-id-not-only-op-41":       6,
-	"slot-table-destroy-clientid-busy-41":         6,
-	"slot-table-destroy-clientid-not-only-op-41":  5,
-	"slot-table-create-session-stale-clientid-41": 6,
-	"exchange-id-again-41":                        6,
-	"destroy-session-standalone-41":               10,
-	"destroy-session-from-other-session-41":       10,
-	"destroy-session-from-own-session-41":         10,
-	"destroy-session-busy-slot-41":                20,
-	"request-on-destroyed-session-41":             30,
-	"replay-41-FREE_STATEID":                      4,
-	"replay-41-SEQUENCE_TWICE":                    10,
-	"replay-41-OPEN_PREVIOUS":                     10,
-	"replay-41-DESTROY_SESSION":                   8,
-	"replay-41-CLOSE_BAD_STATEID":                 4,
+	"diff-content-40":                                     30,
+	"seqid-wrap-40":                                       15,
+	"replay-at-seqid-wrap-40":                             15,
+	"misordered-unconfirmed-owner-40":                     20,
+	"replay-40-OPEN_ERR":                                  10,
+	"replay-40-OPEN_PREVIOUS":                             4,
+	"replay-40-OPEN_DOWNGRADE_ERR":                        5,
+	"slot-table-bad-session-41":                           6,
+	"slot-table-bad-slot-41":                              6,
+	"slot-table-too-many-ops-41":                          6,
+	"slot-table-no-sequence-41":                           6,
+	"slot-table-create-session-not-only-op-41":            6,
+	"slot-table-destroy-session-not-only-op-41":           6,
+	"slot-table-exchange-id-not-only-op-41":               6,
+	"slot-table-destroy-clientid-busy-41":                 6,
+	"slot-table-destroy-clientid-not-only-op-41":          5,
+	"slot-table-create-session-stale-clientid-41":         6,
+	"exchange-id-again-41":                                6,
+	"destroy-session-standalone-41":                       10,
+	"destroy-session-from-other-session-41":               10,
+	"destroy-session-from-own-session-41":                 10,
+	"destroy-session-busy-slot-41":                        20,
+	"request-on-destroyed-session-41":                     30,
+	"replay-41-FREE_STATEID":                              4,
+	"replay-41-SEQUENCE_TWICE":                            10,
+	"replay-41-OPEN_PREVIOUS":                             10,
+	"replay-41-DESTROY_SESSION":                           8,
+	"replay-41-CLOSE_BAD_STATEID":                         4,
 
 	// Client restart while a request of the old incarnation / client
 	// record is still being processed.
@@ -121,15 +126,14 @@ var floors = map[string]int{
 func TestCheck(t *testing.T) {
 	r := ev.Start("C19")
 	defer r.Finish()
-	r.SetRule("case i = one generated client history (even i: NFSv4.0, odd i: NFSv4.1) of 14-27 state-changing requests by 1-2 clients, 2-3 open-owners / 3-7 slots, 5 file names, drawn from PRNG(VERIF_SEED, i); after each request the wrapper picks none / retransmit now / retransmit after unrelated traffic / misordered sequence (-1, +2) / same sequence with other operation, other state ID (4.0) or other operation list (4.1), requests the session/slot machinery must refuse (unknown session, slot beyond the table, too many operations, no SEQUENCE, session operations that are not alone), or (4.0, as a step of its own) an in-order seqid with a wrong state ID / file handle / client ID / lock-owner; 4.0 owner seqids start below the 32-bit wrap in one case of five; the second session of a 4.1 client is destroyed from outside, from the other or from itself, half the time while one of its slots is busy; OPEN, WRITE, READ may instead be held at a file-system gate with 1-3 concurrent identical retransmissions; about once per case the client owner restarts (new verifier) while an OPEN of its old incarnation / client record is held at the gate: CREATE_SESSION (4.1) / SETCLIENTID_CONFIRM (4.0) is answered NFS4ERR_DELAY and is retransmitted while still delayed and after the old request finished; a case is non-trivial if it hit at least one retransmission situation; distinct = distinct sequences of (operation kind, status, retransmission mode)")
+	r.SetRule("case i = one generated client history (even i: NFSv4.0, odd i: NFSv4.1) of 14-27 state-changing requests by 1-2 clients, 2-3 open-owners / 3-7 slots, 5 file names, drawn from PRNG(VERIF_SEED, i); after each request the wrapper picks none / retransmit now / retransmit after unrelated traffic / misordered sequence (-1, +2) / same sequence with other operation, other state ID (4.0) or other operation list (4.1), requests the session/slot machinery must refuse (unknown session, slot beyond the table, too many operations, no SEQUENCE, session operations that are not alone), or (4.0, as a step of its own) an in-order seqid with a wrong state ID / file handle / client ID / lock-owner; 4.0 owner seqids start below the 32-bit wrap in one case of five; the second session of a 4.1 client is destroyed from outside, from the other or from itself, half the time while one of its slots is busy; OPEN, WRITE, READ may instead be held at a file-system gate with 2-4 concurrent requests parked behind it (identical retransmissions; in 4.0 possibly also the owner's next in-order request); about once per case the client owner restarts (new verifier) while an OPEN of its old incarnation / client record is held at the gate: CREATE_SESSION (4.1) / SETCLIENTID_CONFIRM (4.0) is answered NFS4ERR_DELAY and is retransmitted while still delayed and after the old request finished; a case is non-trivial if it hit at least one retransmission situation; distinct = distinct sequences of (operation kind, status, retransmission mode)")
 	r.Assume("the fake directory/leaf tree stands in for the virtual file system: only calls that reach it (open, close, write, truncate, create) count as file-system side effects")
 	r.Assume("server-side open/lock state is observed through: READ (4.0) / TEST_STATEID (4.1) validity of every state ID the client was ever given, LOCKT sweeps of every file, the number of draws from the program's random number generator, and the sizes of the programs' state tables (hook VerifStateCounts / VerifOpenedFilesPoolCounts: clients, sessions, owners, open/lock records, share, lock and hold counts, busy slots); a side effect that changes none of these (e.g. a sequence number moving inside a record) is only detected by its consequences for later in-order requests")
-	r.Assume("retransmissions with different content are only required to be refused where RFC 7530 9.1.9 / RFC 8881 2.10.6.1.3.1 let the server notice: other operation type or other state ID at the same owner seqid (4.0), other operation list shape on the same slot and sequence (4.1); an OPEN retransmitted with e.g. another file name at the same seqid is answered from the cache by design and is not probed")
+	r.Assume("a request that reuses the seqid (4.0) or slot and sequence ID (4.1) of the last request but is not byte-identical to it (other operation, state ID, file, name, byte range, lock-owner, share access, operation list) is not a retransmission: it may be refused with any error, must not be executed and, by the last clause of the property, must not be answered with the cached reply of the other request; RFC 7530 9.1.9 / RFC 8881 2.10.6.1.3.1 would let a server compare less")
 	r.Assume("a misordered or false-retry request only has to be rejected (any error status), must not be answered with the cached reply and must leave the fingerprint unchanged; the exact error code is recorded, not demanded")
 	r.Assume("a CREATE_SESSION answered NFS4ERR_DELAY was not executed and nothing is cached for it: its retransmission must be executed (NFS4ERR_DELAY again, or a new session once the old incarnation is idle, within 3 attempts); any other reply is the reply of another sequence ID")
 	r.Assume("a 4.0 request with an in-order seqid that fails consumes the seqid (and its reply is cached and replayed) unless the error is on the list of RFC 7530 9.1.7, in which case sending it again must behave identically and the next valid request uses the same seqid; which of the two applies is taken from the status the server returns; a refusal that happens after the owner's transaction started may drop the owner's previous cached reply (the client acknowledged it)")
 	r.Assume("after 0xffffffff an owner seqid continues with 1 (this implementation) or 0: the first convention the server accepts is used for the rest of the case")
-	r.Assume("a new-lock-owner LOCK whose open-owner seqid is in order but whose lock-owner seqid equals the lock-owner's last one is answered by this implementation with the lock-owner's cached LOCK reply; this is counted (new_lock_answered_with_lock_owner_cached_reply), only absence of lock/tree side effects and consistent seqid consumption are demanded")
 	r.Assume("hang verdicts are decided logically: the original has returned, the duplicate's goroutine is blocked on a channel inside /repo in three successive dumps and no other goroutine is inside /repo; wall time only paces the polling")
 	r.Assume("virtual clock advances by at most a few seconds per case, far below the 2 minute lease: lease expiry during retransmission is left to C18")
 
